@@ -43,4 +43,4 @@ Ltac gen_sym :=
   repeat (once gen_split1; cbv beta iota zeta);
   gen_leaf.
 
-Ltac gen_eq := intros; first [ reflexivity | timeout 30 gen_sym ].
+Ltac gen_eq := intros; first [ reflexivity | timeout 120 gen_sym ].
